@@ -1,0 +1,34 @@
+//go:build verif
+
+package ipnisync
+
+// Contracts for the deductive checks in /verif (comment-only; no code).
+
+//@ nonnil log
+
+// ---------------------------------------------------------------------------
+// C03: a chain head is accepted only when signed by the expected publisher
+
+// fetch is used here through its call protocol only: on success the callback
+// has run exactly once on the response body and returned nil (its body belongs to C04).
+//@ func (*Syncer).fetch
+//@   nobody
+//@   requires s != nil
+//@   invokes-on-success cb
+
+// From the property: a CID is returned only if the decoded head validated and
+// its signer is the publisher this syncer was created for; the CID returned is
+// the signed one; errors return the undefined CID.
+// The peer ID is non-empty on every path that creates a Syncer for a publisher
+// (API-boundary precondition; the in-repo caller is dagsync's SyncAdChain).
+//@ func (*Syncer).GetHead
+//@   property C03
+//@   requires s != nil && str(s.peerInfo.ID) != str("")
+//@   ghost signer := 0
+//@   ghost validated := false
+//@   at call Validate#1: after ghost signer := str(result0)
+//@   at call Validate#1: after ghost validated := result1 == nil
+//@   at call Validate#1: assert arg0.Head == signedHead.Head && arg0.Topic == signedHead.Topic && arg0.Sig == signedHead.Sig && arg0.Pubkey == signedHead.Pubkey
+//@   ensures-local result1 == nil ==> validated && signer == str(s.peerInfo.ID)
+//@   ensures-local result1 == nil ==> str(result0.str) == str(as(signedHead.Head, "cidlink.Link").Cid.str)
+//@   ensures result1 != nil ==> str(result0.str) == str("")
